@@ -491,12 +491,17 @@ const COHERENCE_TYPES: &[(&str, &str, &[&str], bool, bool)] = &[
     ("tuple-int-str", "(int, str)", &["(1, \"a\")", "(1, \"b\")", "(0, \"z\")", "(1, \"a\" + \"\")", "(2, \"\")"], true, true),
     ("seq-float", "Sequence<float>", &["[0.0]", "[-0.0]", "cast<Sequence<float>>([])", "[1.5, 0.0]", "[1.5, -0.0]", "[1.5]"], false, true),
     ("seq-int", "Sequence<int>", &["[1, 2]", "[1, 2, 3]", "cast<Sequence<int>>([])", "[2]", "range(1, 3).to_array()", "range(1, 3)"], true, true),
+    ("struct-diff-cmp", "V_D", &["V_D(1)", "V_D(5)", "V_D(2)", "V_D(5)", "V_D(0 - 4)", "V_D(100)"], true, true),
+    ("tuple-of-struct-diff-cmp", "(V_D, int)", &["(V_D(1), 0)", "(V_D(5), 0)", "(V_D(5), 1)", "(V_D(0 - 4), 9)", "(V_D(100), 0)"], true, true),
+    ("seq-of-struct-diff-cmp", "Sequence<V_D>", &["[V_D(1)]", "[V_D(5)]", "[V_D(5), V_D(1)]", "[V_D(0 - 4)]", "cast<Sequence<V_D>>([])"], true, true),
     ("optional-int", "Optional<int>", &["some(0)", "some(1)", "cast<Optional<int>>(none())", "some(2 - 1)"], true, false),
     ("optional-float", "Optional<float>", &["some(0.0)", "some(-0.0)", "cast<Optional<float>>(none())", "some(1.5)"], false, false),
 ];
 
 pub fn coherence_program() -> (String, usize) {
     let mut text = String::from("fn v_sgn(v_x: int)->int{ if(v_x < 0, 0 - 1, if(v_x > 0, 1, 0)) }\n");
+    // a user type whose cmp returns differences (any negative / positive number, not just -1 / 1)
+    text.push_str("struct V_D(v_x: int)\nfn cmp(v_a: V_D, v_b: V_D)->int{ v_a::v_x - v_b::v_x }\nfn eq(v_a: V_D, v_b: V_D)->bool{ v_a::v_x == v_b::v_x }\nfn hash(v_a: V_D)->int{ v_a::v_x % 7 + 7 }\n");
     let mut body = vec![];
     for (name, ty, pool, has_hash, has_cmp) in COHERENCE_TYPES {
         let id = name.replace('-', "_");
